@@ -23,6 +23,7 @@ def parseMode? : String → Option Mode
 def parseAns? (tok : String) : Option Ans :=
   match tok.toList with
   | [a, b, c, d] => some ⟨a == '1', b == '1', c == '1', d == '1'⟩
+  | ['T'] => some ⟨false, false, true, true⟩   -- the resolver let the probe's context time out
   | _ => none
 
 def parseInt? (tok : String) : Option Int :=
@@ -93,7 +94,32 @@ def handle (w : World) (line : String) : World × String :=
       let (w2, calls) := afterProbe w1 c.probeReq ans
       (w2, s!"t={hexOfStr c.target} rr={boolStr c.reroute} ip={boolStr c.dialIp} probe={boolStr (calls > 0)}")
     | _, _, _, _ => (w, "bad-op")
-  | "dial" :: ob :: dst :: d :: rt :: nOut :: fail :: ans =>
+  | "cdt2" :: ob :: dst :: d :: ans =>
+    -- a second ChooseDialTarget for the same flow parameters while the probe of the first is in flight
+    match ob.toNat?, parseDst? dst, strOfHex? d, ans.mapM parseAns? with
+    | some ob, some dst, some d, some ans =>
+      let (w1, c1) := chooseDialTarget w ob dst d
+      let (w2, c2) := chooseDialTarget w1 ob dst d
+      let (w3, calls) := afterProbe w2 c1.probeReq ans
+      let f (c : Choice) := s!"t={hexOfStr c.target} rr={boolStr c.reroute} ip={boolStr c.dialIp}"
+      (w3, s!"{f c1} ; {f c2} probe={boolStr (calls > 0)}")
+    | _, _, _, _ => (w, "bad-op")
+  | "evicted" :: ks =>
+    -- the keys one run of the cache janitor (evictExpiredDnsCache: time-based + LRU) removed
+    match ks.mapM strOfHex? with
+    | some ks => (ks.foldl dnsEvict w, "ok")
+    | none => (w, "bad-op")
+  | ["cfg", v] =>
+    match (if v = "absent" then some none else (strOfHex? v).map some) with
+    | some v =>
+      match parseDialMode v with
+      | some .ip => (w, "mode=ip")
+      | some .domain => (w, "mode=domain")
+      | some .domainPlus => (w, "mode=domain+")
+      | some .domainCao => (w, "mode=domain++")
+      | none => (w, "err")
+    | none => (w, "bad-op")
+  | "dial" :: ob :: dst :: d :: rt :: nOut :: fail :: _meta :: ans =>
     match ob.toNat?, parseDst? dst, strOfHex? d, nOut.toNat?, ans.mapM parseAns? with
     | some ob, some dst, some d, some nOut, some ans =>
       let route : Str → Option Nat := fun _ => rt.toNat?
